@@ -40,6 +40,23 @@ Theorem C02_fun2core_capture_refuted :
 Proof. exact fun2core_capture_refuted_lemma. Qed.
 Print Assumptions C02_fun2core_capture_refuted.
 
+(* Second counterexample, independent of capture (the syntactic capture detector is silent on it): a
+   goto whose annotation is not its label's type (the checker annotates the type expected of the goto
+   expression, fun2core uses it for the target covariable) makes typed_free_vars miss the binder; the
+   lifted definition gets a spurious parameter and the translated program is NOT CLOSED
+   (corpus/fun/c02_unbound_covar.sc: `share_h_0(a0, k, x0)` with no k in scope; natively a garbage
+   register is passed).  The Core machine is stuck on the unbound covariable. *)
+Theorem C02_fun2core_goto_unbound_refuted :
+  exists (p : fcprog) (args : list Z) (c : cprog) (n : nat),
+    annotated_fcprog p = true /\ effect_sequenced p = true /\ shadowing_risk_prog p = false /\
+    goto_type_mismatch_prog p = true /\
+    compile_prog p = Ok c /\
+    cprog_closed c = false /\
+    defined (run_fun n p args) = true /\
+    run_fun n p args <> run_core n c args.
+Proof. exact fun2core_goto_unbound_refuted_lemma. Qed.
+Print Assumptions C02_fun2core_goto_unbound_refuted.
+
 (* ---------- generated names are fresh ---------- *)
 (* fresh_name(used, base) returns a name that is not in `used` and inserts exactly that name
    (the bounded search of the model always succeeds). *)
@@ -83,6 +100,25 @@ Theorem C02_compile_prog_def_names_distinct : forall p c,
   NoDup (map cdname (cpdefs c)).
 Proof. exact compile_prog_def_names_distinct. Qed.
 Print Assumptions C02_compile_prog_def_names_distinct.
+
+(* ---------- structure of the translation ---------- *)
+(* compile_with_cont of an integer expression (literal, variable, operator, parentheses) is the cut of
+   its `compile` translation against the continuation, whatever the continuation is; in particular a
+   variable is translated to that variable and a literal to that literal (no administrative redex) *)
+Theorem C02_wc_expression_is_cut : forall e, iexp e = true ->
+  forall codata cur cont st sr st', wc codata cur e cont st = Ok (sr, st') ->
+  exists ce, (forall ty, cmp codata cur e ty st = Ok (ce, st')) /\ sr = CCut ce CI64 cont.
+Proof. exact wc_iexp. Qed.
+Print Assumptions C02_wc_expression_is_cut.
+
+(* the hygiene statement at full strength, NOT proved (and false without the guard, see the capture
+   witness): under [barendregt] and correct goto annotations the Core machine on the translated
+   program reproduces the source - this is fun2core_correct_guarded_statement above; its name-level
+   reading "every occurrence of a source variable, covariable or label in compile_prog p is bound by
+   the translation of its source binder" follows from it for all variables that matter
+   observationally.  What IS proved about names: C02_translation_names_fresh,
+   C02_share_label_fresh, C02_compile_prog_def_names_distinct (generated names never collide with
+   user names or with each other). *)
 
 (* ---------- semantic preservation, PARTIAL ----------
    Proved for programs whose `main` lies in the first-order integer fragment [islf]: literals, i64
